@@ -71,7 +71,7 @@ def rerun(ctx, h):
 def rerun_retry(ctx, h, tries=8):
     """histories with concurrent senders / racing stops are schedule dependent: a rejection counts as reproduced if any of a
     few re-executions of the same history on the real driver is rejected again"""
-    conc = any(s["fn"] in ("SendPar", "BurstStop") for s in h["steps"])
+    conc = any(s["fn"] in ("SendPar", "BurstStop") for s in h["steps"]) or h.get("kind") != "testdrv"   # (the process-backed driver works asynchronously)
     for _ in range(tries if conc else 1):
         ok, new = rerun(ctx, h)
         if ok:
